@@ -869,29 +869,52 @@ func (c *Ctx) rulesC14(a *coreAnchors, la *LockAnalysis) {
 	}
 	c.check(nb >= 1, "C14.time", "TimeBefore has a writer", a.newTransition.Pos(), "none found")
 	// TimeAfter in emitEvents: a store from m.time() that is after setActiveStates and before TransitionFinals / TransitionEnd
-	setSites := c.sitesIn(f, funcKey(a.setActive))
-	fin := c.sitesOrHelper(f, "iface:Tracer.TransitionFinals")
+	// the frame: emitEvents, or the private single-caller helper the state
+	// writer was moved into
+	frame := f
+	if in := c.innerSites(f, funcKey(a.setActive)); len(in) == 1 && topFunc(in[0].Parent()) != f {
+		frame = topFunc(in[0].Parent())
+	}
+	setSites := c.sitesIn(frame, funcKey(a.setActive))
+	fin := c.sitesOrHelper(frame, "iface:Tracer.TransitionFinals")
+	finInFrame := len(fin) > 0
+	if !finInFrame {
+		fin = c.sitesOrHelper(f, "iface:Tracer.TransitionFinals")
+	}
 	var accStore, cancStore ssa.Instruction
-	for _, w := range writesOfFieldIn(f, fTA) {
+	taWrites := writesOfFieldIn(frame, fTA)
+	if frame != f {
+		taWrites = append(taWrites, writesOfFieldIn(f, fTA)...)
+	}
+	for _, w := range taWrites {
 		if !flowsFrom(w.Val, isTimeCall) {
 			c.fail("C14.time", "emitEvents stores TimeAfter from "+render(w.Val), w.Instr.Pos(), "TimeAfter may only be assigned from Machine.time(nil) in emitEvents")
 			continue
 		}
-		if len(setSites) == 1 && strictlyBefore(setSites[0], w.Instr) {
+		if len(setSites) == 1 && w.Instr.Parent() == setSites[0].Parent() && strictlyBefore(setSites[0], w.Instr) {
 			accStore = w.Instr
 		} else {
 			cancStore = w.Instr
 		}
 	}
 	if len(setSites) == 1 && len(fin) == 1 && len(ends) == 1 {
-		good := accStore != nil && strictlyBefore(accStore, fin[0]) && dominatesInstr(setSites[0], accStore)
+		beforeFin := false
+		if accStore != nil {
+			if finInFrame {
+				beforeFin = strictlyBefore(accStore, fin[0])
+			} else if si := c.standIn(f, accStore); si != nil {
+				// the tracers are called by emitEvents after the helper returned
+				beforeFin = strictlyBefore(si, fin[0])
+			}
+		}
+		good := accStore != nil && beforeFin && dominatesInstr(setSites[0], accStore)
 		pos := f.Pos()
 		if accStore != nil {
 			pos = accStore.Pos()
 		}
 		c.check(good, "C14.time", "accepted path: TimeAfter re-read after the writer, before TransitionFinals", pos, "t.TimeAfter = m.time(nil) must sit between setActiveStates and the TransitionFinals loop")
 		// every path from setActiveStates to TransitionFinals passes that store
-		if accStore != nil {
+		if accStore != nil && finInFrame {
 			c.check(allPathsAvoidingReach(setSites[0], fin[0], accStore), "C14.time", "accepted path: no way around the TimeAfter re-read", accStore.Pos(), "a path from setActiveStates reaches TransitionFinals without re-reading the time")
 		}
 		good2 := false
@@ -1172,7 +1195,7 @@ func (c *Ctx) rulesC05x(a *coreAnchors) {
 			c.check(uses && !direct, "C05.snap", "processHandlers iterates getHandlers()", ph.Pos(), "the dispatch loop must not read Machine.handlers directly")
 		}
 	}
-	sets := c.sitesIn(a.emitEvents, funcKey(a.setActive))
+	sets := c.standInSites(a.emitEvents, funcKey(a.setActive))
 	c.check(len(c.sitesIn(a.emitEvents, pm+":Transition.setupExitEnter")) >= 1, "C05.reenter", "emitEvents recomputes Exits/Enters on the auto path", a.emitEvents.Pos(), "no setupExitEnter call in emitEvents: after a partially accepted auto mutation the final handlers run for stale Enters/Exits")
 	for i, s := range c.sitesIn(a.emitEvents, pm+":Transition.setupExitEnter") {
 		gs := guardsOf(s.Block())
